@@ -125,6 +125,70 @@ func (p *Program) runScan(sc *Scan) *UnitResult {
 		}
 		return res
 	}
+	if sc.Kind == "typekeys" {
+		// typekeys <global map>: <allowed basic types> - in the package initialiser, every entry stored into the global
+		// map under a key of the form reflect.TypeOf(<value of static type T>) has a T that is not an unnamed basic
+		// type, except the listed ones.
+		for _, fn := range p.fnByKey {
+			if fn.Pkg == nil || fn.Pkg.Pkg.Path() != sc.Pkg || fn.Name() != "init" {
+				continue
+			}
+			for _, b := range fn.Blocks {
+				for _, in := range b.Instrs {
+					mu, ok := in.(*ssa.MapUpdate)
+					if !ok {
+						continue
+					}
+					// the map operand is a load of the global (or the fresh map that is then stored into it)
+					isTarget := false
+					switch m := mu.Map.(type) {
+					case *ssa.UnOp:
+						if g, ok := m.X.(*ssa.Global); ok && g.Name() == sc.Target {
+							isTarget = true
+						}
+					case *ssa.MakeMap:
+						for _, ref := range *m.Referrers() {
+							if st, ok := ref.(*ssa.Store); ok {
+								if g, ok := st.Addr.(*ssa.Global); ok && g.Name() == sc.Target {
+									isTarget = true
+								}
+							}
+						}
+					}
+					if !isTarget {
+						continue
+					}
+					found = true
+					call, ok := mu.Key.(*ssa.Call)
+					if !ok || call.Call.StaticCallee() == nil || fnKey(call.Call.StaticCallee()) != "reflect.TypeOf" || len(call.Call.Args) != 1 {
+						offenders = append(offenders, "key that is not reflect.TypeOf(...) at "+p.pos(mu.Pos()))
+						continue
+					}
+					arg := call.Call.Args[0]
+					if mi, ok := arg.(*ssa.MakeInterface); ok {
+						arg = mi.X
+					}
+					t := arg.Type()
+					if bt, ok := t.(*types.Basic); ok {
+						if !allowed[bt.Name()] {
+							offenders = append(offenders, "entry for the unnamed basic type "+bt.Name()+" at "+p.pos(mu.Pos()))
+						}
+					}
+				}
+			}
+		}
+		if found && len(offenders) == 0 {
+			o.Status = "unsat"
+			o.Output = fmt.Sprintf("the initial entries of %s are keyed by no unnamed basic type other than {%s}", sc.Target, strings.Join(sc.Allowed, ", "))
+		} else {
+			o.Status = "sat"
+			if !found {
+				offenders = append(offenders, "no initial entry of "+sc.Target+" found in the package initialiser")
+			}
+			o.Output = strings.Join(offenders, "; ")
+		}
+		return res
+	}
 	if sc.Kind == "defercalls" {
 		// defercalls <pkg>: <function>=<callee> ... - each listed function has a defer statement that calls <callee>
 		// directly (so the call also runs when a panic unwinds through the function)
